@@ -175,7 +175,7 @@ static void set_two_handles(const Params& P, const std::vector<std::string>& nam
 }
 
 struct Runner {
-  Ctx& C; FILE* out; std::map<std::string, Stat> stats; std::map<std::string, long> known; long states = 0, transitions = 0, comparisons = 0, inadmissible = 0, done = 0;
+  Ctx& C; FILE* out; std::map<std::string, Stat> stats; std::map<std::string, long> known; long states = 0, transitions = 0, comparisons = 0, inadmissible = 0, inadmissible_points = 0, done = 0;
   int samples_left; std::map<std::string, int> viol_budget;
   Runner(Ctx& c, FILE* o, int ns) : C(c), out(o), samples_left(ns) {}
 
@@ -268,10 +268,16 @@ struct Runner {
     for (int k = 0; k < a.nd; k++) P.m[P.names[a.d[k].p]] = a.d[k].v;
     if (C.sys->derive) C.sys->derive(P);
     std::vector<std::vector<Expect>> ex(C.pts.size());
-    for (size_t i = 0; i < C.pts.size(); i++) { if (!C.sys->reference(P, C.pts[i], ex[i])) { inadmissible++; return false; } if (C.pts[i].special) for (auto& e : ex[i]) if (e.mode == 0) e.special = true; }
+    size_t nskip = 0;
+    for (size_t i = 0; i < C.pts.size(); i++) {
+      if (!C.sys->reference(P, C.pts[i], ex[i])) { if (!C.sys->pointwise_admissibility) { inadmissible++; return false; } ex[i].clear(); nskip++; inadmissible_points++; continue; }
+      if (C.pts[i].special) for (auto& e : ex[i]) if (e.mode == 0) e.special = true;
+    }
+    if (nskip == C.pts.size()) { inadmissible++; return false; }
     if (g_red) { run_reduction(P, ex, a.nd); done++; return true; }
     set_all(P);
     for (size_t i = 0; i < C.pts.size(); i++) {
+      if (ex[i].empty() && C.sys->pointwise_admissibility) continue;
       states += 2;  // (assignment, point) in two scalar types
       if (C.sys->apply_variant) C.sys->apply_variant(C.pts[i].variant);
       for (auto& e : ex[i]) if (prop_selected(e.prop)) run_expect(e, P, a.nd);
@@ -331,7 +337,8 @@ static int run_system(const System& sys0, int tier, FILE* out, double t_end) {
   System sys = sys0; if (g_red) { sys.name = g_red->id; sys.prop = "C20"; }
   Ctx C; build_ctx(C, sys, tier);
   // base must be admissible: hard harness error otherwise
-  { std::vector<Expect> ex; for (auto& p : C.pts) if (!sys.reference(C.base, p, ex)) { fprintf(stderr, "E1 HARNESS ERROR: base assignment inadmissible for %s\n", sys.name.c_str()); return 2; } }
+  { std::vector<Expect> ex; size_t bad = 0; for (auto& p : C.pts) if (!sys.reference(C.base, p, ex)) bad++;
+    if (bad > (sys.pointwise_admissibility ? C.pts.size() / 2 : 0)) { fprintf(stderr, "E1 HARNESS ERROR: base assignment inadmissible at %zu of %zu points for %s\n", bad, C.pts.size(), sys.name.c_str()); return 2; } }
   int W = std::max(1, std::min<int>(O.jobs, (int)C.as.size()));
   std::vector<pid_t> pids; std::vector<std::string> files;
   fflush(out);
@@ -352,7 +359,7 @@ static int run_system(const System& sys0, int tier, FILE* out, double t_end) {
       for (auto& kv : R.stats) fprintf(fo, "{\"k\":\"stat\",\"key\":\"%s\",\"n\":%ld,\"maxratio\":%.6g,\"nviol\":%ld,\"nknown\":%ld}\n", kv.first.c_str(), kv.second.n, kv.second.maxratio, kv.second.nviol, kv.second.nknown);
       for (auto& kv : g_counts) fprintf(fo, "{\"k\":\"count\",\"system\":\"%s\",\"key\":\"%s\",\"n\":%ld}\n", sys.name.c_str(), kv.first.c_str(), kv.second);
       for (auto& kv : R.known) fprintf(fo, "{\"k\":\"known\",\"key\":\"%s\",\"n\":%ld}\n", kv.first.c_str(), kv.second);
-      fprintf(fo, "{\"k\":\"worker\",\"system\":\"%s\",\"states\":%ld,\"transitions\":%ld,\"comparisons\":%ld,\"inadmissible\":%ld,\"done\":%ld,\"timed_out\":%s,\"stopped_at\":%zu}\n", sys.name.c_str(), R.states, R.transitions, R.comparisons, R.inadmissible, R.done, timed_out ? "true" : "false", timed_out ? last : C.as.size());
+      fprintf(fo, "{\"k\":\"worker\",\"system\":\"%s\",\"states\":%ld,\"transitions\":%ld,\"comparisons\":%ld,\"inadmissible\":%ld,\"inadmissible_points\":%ld,\"done\":%ld,\"timed_out\":%s,\"stopped_at\":%zu}\n", sys.name.c_str(), R.states, R.transitions, R.comparisons, R.inadmissible, R.inadmissible_points, R.done, timed_out ? "true" : "false", timed_out ? last : C.as.size());
       fclose(fo); unlink(g_capfile.c_str()); _exit(0);
     }
     pids.push_back(pid);
